@@ -94,6 +94,35 @@ var names = []string{"raw.a", "raw.b", "s.a", "agg.a", "other"}
 
 const opTick = 5 // ops 0..4 are points with names[op]
 
+// opStale: a point for names[0] whose timestamp lies staleAge seconds in the past (late or replayed
+// data): every aggregation that takes it counts it as too old; whether the raw metric is withheld
+// must not depend on its age
+const (
+	opStale  = 6
+	staleAge = 1000
+)
+
+func opName(op byte) string {
+	if op == opStale {
+		return names[0]
+	}
+	return names[op]
+}
+
+func pipePoint(pipe *ref.Pipe, state *ref.PipeState, op byte, val, clock int64) ref.PipePoint {
+	if op == opStale {
+		return pipe.PointTooOld(state, opName(op), val, opTs(op, clock))
+	}
+	return pipe.Point(state, opName(op), val, clock)
+}
+
+func opTs(op byte, clock int64) int64 {
+	if op == opStale {
+		return clock - staleAge
+	}
+	return clock
+}
+
 type aggSel struct {
 	Shape int  `json:"shape"`
 	Cache bool `json:"cache"`
@@ -252,6 +281,7 @@ func streams(points, ticks int) [][]byte {
 			for n := range names {
 				rec(append(cur, byte(n)), p+1, t)
 			}
+			rec(append(cur, opStale), p+1, t)
 		}
 		if t < ticks {
 			rec(append(cur, opTick), p, t+1)
@@ -268,7 +298,11 @@ func streamString(st []byte) string {
 		if o == opTick {
 			parts = append(parts, "T")
 		} else {
-			parts = append(parts, fmt.Sprintf("%s=%d", names[o], v))
+			if o == opStale {
+				parts = append(parts, fmt.Sprintf("%s@old=%d", opName(o), v))
+			} else {
+				parts = append(parts, fmt.Sprintf("%s=%d", names[o], v))
+			}
 			v *= 2
 		}
 	}
@@ -638,8 +672,8 @@ func describe(spec tspec, pipe *ref.Pipe, st []byte, n int, clock int64) []strin
 			out = append(out, fmt.Sprintf("tick@%d -> %v", clock, exp.Lines))
 			continue
 		}
-		exp := pipe.Point(state, names[op], val, clock)
-		out = append(out, fmt.Sprintf("%s %d %d -> blacklisted=%v taken_by=%v consumed=%v routes=%v", names[op], val, clock, exp.Blacklisted, taken(spec, exp.AggSeen), exp.Consumed, exp.Accepted))
+		exp := pipePoint(pipe, state, op, val, clock)
+		out = append(out, fmt.Sprintf("%s %d %d -> blacklisted=%v taken_by=%v consumed=%v routes=%v", opName(op), val, opTs(op, clock), exp.Blacklisted, taken(spec, exp.AggSeen), exp.Consumed, exp.Accepted))
 		val *= 2
 	}
 	return out
@@ -735,9 +769,9 @@ func (w *worker) runTable(ti int, spec tspec, sts [][]byte, points int, upto int
 			}
 			loop = w.settle(expLines, out0)
 		} else {
-			ts := atomic.LoadInt64(&w.clock)
-			name := names[op]
-			pointExp = pipe.Point(state, name, val, ts)
+			ts := opTs(op, atomic.LoadInt64(&w.clock))
+			name := opName(op)
+			pointExp = pipePoint(pipe, state, op, val, atomic.LoadInt64(&w.clock))
 			exp := &pointExp
 			line := name + " " + strconv.FormatInt(val, 10) + " " + strconv.FormatInt(ts, 10)
 			expTableIn = 1
@@ -793,8 +827,16 @@ func (w *worker) runTable(ti int, spec tspec, sts [][]byte, points int, upto int
 		if d := c1.unr - c0.unr; d != 0 {
 			problems = append(problems, fmt.Sprintf("unroutable: unroutable counter moved by %d although a catch-all route exists", d))
 		}
-		if d := c1.tooOld - c0.tooOld; d != 0 {
-			problems = append(problems, fmt.Sprintf("re-entry-too-old: %d point(s) arrived at an aggregator for an already closed bucket (TooOld); raw points carry the current time, only re-entering aggregate lines are that old", d))
+		expTooOld := int64(0)
+		if op == opStale && !pointExp.Blacklisted {
+			for _, took := range pointExp.AggSeen {
+				if took {
+					expTooOld++
+				}
+			}
+		}
+		if d := c1.tooOld - c0.tooOld; d != expTooOld {
+			problems = append(problems, fmt.Sprintf("too-old: the TooOld counter moved by %d, expected %d (one per aggregation that takes a point older than every open bucket; raw points with the current time and re-entering aggregate lines never are)", d, expTooOld))
 		}
 		for ki, kc := range w.keys {
 			if d := kc.in.Count() - kc.in0; d != expIn[ki] {
